@@ -84,6 +84,17 @@ func (hc *hashCollector) src(v ssa.Value, env map[ssa.Value][]hsrc, d int) []hsr
 	mapx := func(in []hsrc, x string) []hsrc {
 		var out []hsrc
 		for _, s := range in {
+			// the negation of a nil test is the other nil test
+			if n := len(s.xf); x == "not" && n > 0 && (s.xf[n-1] == "isnil" || s.xf[n-1] == "notnil") {
+				flipped := "isnil"
+				if s.xf[n-1] == "isnil" {
+					flipped = "notnil"
+				}
+				t := s
+				t.xf = append(append([]string{}, s.xf[:n-1]...), flipped)
+				out = append(out, t)
+				continue
+			}
 			out = append(out, s.with(x))
 		}
 		return out
@@ -493,8 +504,17 @@ func (c *Ctx) hashShapeOf() *hashShape {
 		if byRecv[rn] == nil {
 			byRecv[rn] = map[string]*ssa.Function{}
 		}
-		if byRecv[rn][role] != nil {
-			byRecv[rn][role+"#dup"] = fn
+		if prev := byRecv[rn][role]; prev != nil {
+			// two methods take an interface value: the encoder is the one that hands its argument to binary.Write
+			// itself, the other a helper that ends in a call of it (its calls are followed like any helper's)
+			pw, fw := callsBinaryWrite(prev), callsBinaryWrite(fn)
+			switch {
+			case role == "number" && pw && !fw:
+				continue
+			case role == "number" && fw && !pw:
+			default:
+				byRecv[rn][role+"#dup"] = fn
+			}
 		}
 		byRecv[rn][role] = fn
 	}
@@ -950,18 +970,23 @@ func runHashPrimitives(c *Ctx, prims map[*ssa.Function]string) {
 					if !ok {
 						continue
 					}
-					isWrite := staticCallee(call) == number || inner(call, ptr) || prims[originOf(staticCallee(call))] != ""
+					// a helper whose whole body is number(one of its parameters) writes what number would write
+					fwdIdx := forwardsToNumber(staticCallee(call), number)
+					isWrite := staticCallee(call) == number || fwdIdx > 0 || inner(call, ptr) || prims[originOf(staticCallee(call))] != ""
 					if !isWrite {
 						continue
 					}
 					if nFlag == 0 {
 						// must be the flag
-						if staticCallee(call) != number {
+						if staticCallee(call) != number && fwdIdx <= 0 {
 							flagBad = "something is encoded before the presence flag"
 							continue
 						}
 						nFlag++
 						arg := call.Call.Args[1]
+						if fwdIdx > 0 {
+							arg = call.Call.Args[fwdIdx]
+						}
 						if mi, ok := arg.(*ssa.MakeInterface); ok {
 							arg = mi.X
 						}
@@ -1757,4 +1782,54 @@ func enumPaths(fn *ssa.Function, visit func(path []*ssa.BasicBlock)) int {
 	}
 	rec(fn.Blocks[0], nil, map[*ssa.BasicBlock]bool{})
 	return n
+}
+
+// callsBinaryWrite: the function's own body calls encoding/binary.Write.
+func callsBinaryWrite(f *ssa.Function) bool {
+	for _, blk := range f.Blocks {
+		for _, in := range blk.Instrs {
+			if call, ok := in.(*ssa.Call); ok && calleeName(call) == "encoding/binary.Write" {
+				return true
+			}
+		}
+	}
+	return false
+}
+
+// forwardsToNumber: g is a function of the module whose whole body is one call number(receiver, p) of one of its own
+// parameters p (boxed or not) and a plain return: a call of g writes exactly what number writes for that argument.
+// Returns the index of p among g's parameters (0 if g is no such helper).
+func forwardsToNumber(g, number *ssa.Function) int {
+	if g == nil || number == nil || g == number || len(g.Blocks) != 1 || len(g.Params) < 2 {
+		return 0
+	}
+	idx := 0
+	for _, in := range g.Blocks[0].Instrs {
+		switch x := in.(type) {
+		case *ssa.MakeInterface, *ssa.DebugRef:
+		case *ssa.Return:
+			if len(x.Results) != 0 {
+				return 0
+			}
+		case *ssa.Call:
+			if idx != 0 || staticCallee(x) != number || len(x.Call.Args) != 2 || x.Call.Args[0] != ssa.Value(g.Params[0]) {
+				return 0
+			}
+			arg := x.Call.Args[1]
+			if mi, ok := arg.(*ssa.MakeInterface); ok {
+				arg = mi.X
+			}
+			for i, pr := range g.Params {
+				if i > 0 && arg == ssa.Value(pr) {
+					idx = i
+				}
+			}
+			if idx == 0 {
+				return 0
+			}
+		default:
+			return 0
+		}
+	}
+	return idx
 }
